@@ -5,6 +5,7 @@
   (`known_findings.json`: registry entries and a render_context layer survive a failing render).
 -/
 import Djc.Proofs.Render
+import Djc.Proofs.Plain
 namespace Djc.Props.C06
 open Djc.Tpl Djc.Render Djc.Proofs.Render
 
@@ -79,6 +80,17 @@ theorem bookkeeping_error_keeps_world (f : WStep) (w : World) :
     simp [hf, bind, ExceptT.bind, ExceptT.mk, ExceptT.bindCont, ExceptT.run, StateT.bind, StateT.run, get, getThe,
       MonadStateOf.get, StateT.get, liftM, monadLift, MonadLift.monadLift, ExceptT.lift, StateT.map, set, StateT.set,
       pure, ExceptT.pure, StateT.pure, throw, throwThe, MonadExceptOf.throw, Functor.map, StateT.lift] <;> rfl
+
+/-- **The part of `C06_full` that is proved: templates without library tags touch no registry.**  Whatever a page
+built from text, `{{ }}`, `{% if %}`, `{% for %}`, `{% with %}` and elements does — finish, run out of fuel, or stop
+at the work budget — in any world, every registry of the world (component contexts, renderers, child attributes,
+provide cache and references, the render-context depth, the recorded events) is afterwards what it was; only the
+step counter moved.  So whatever a render leaves behind is left by a component, slot, fill or provide node. -/
+theorem C06_full_partial_plain_nodes_touch_no_registry (env : Env) (fuel : Nat) (page : List Node) (ctx : Ctx) (w : World)
+    (hp : Djc.Proofs.Plain.plainL page = true) (hc : Djc.Proofs.Plain.ctxFree ctx = true) :
+    ∃ st, ((renderNodes env fuel page ctx).run.run w).2 = { w with steps := st } := by
+  rw [(Djc.Proofs.Plain.model_plain env fuel).1 page ctx w hp hc]
+  exact ⟨_, rfl⟩
 
 /-- The property at full strength for the model of the code: whatever callback raises, every
 registry of the world is as before the render.  OPEN; false on the unchanged tree. -/
